@@ -45,7 +45,7 @@ static void enter(int f, int id) { St& s = *S; if (s.returned) vf_fail("filter %
     if (s.k.modes[f] == SIO) { s.seq[f].push_back(id); if (f != s.first_sio) { size_t n = s.seq[f].size(); const std::vector<int>& ref = s.seq[s.first_sio]; if (n > ref.size() || ref[n - 1] != id) vf_fail("serial_in_order filter %d processes item %d as its %zu-th item, but the first serial_in_order filter (%d) processed item %d at that position", f, id, n, s.first_sio, n <= ref.size() ? ref[n - 1] : -1); } }
     if (f == s.k.stallf && s.k.stallm > 0 && id < s.k.stallm) { while (!s.far_done) if (!vtbb::run_others(1)) break; }   // items 0..m-1 wait inside this filter until item m has gone past it
     else if (f == s.k.stallf && id == 0) vtbb::run_others(s.k.stallk);
-    vtbb::interleave(); }
+    vtbb::nested(); vtbb::interleave(); }
 static void leave(int f, int id) { St& s = *S; s.live[f]--; if (f == s.k.stallf && id == s.k.stallm) s.far_done = true; if (f == s.L - 1) { s.inflight--; } }
 static bool produce(int& id) { St& s = *S; if (s.returned) vf_fail("the input filter was invoked after parallel_pipeline had returned");
     if (s.k.modes[0] != PAR && s.live[0] != 0) vf_fail("serial input filter invoked while another invocation of it is still running");
